@@ -573,6 +573,12 @@ class SymNum(Sym):
             for _ in range(o):
                 r = r * self
             return r
+        if o == -1:
+            return 1.0 / self
+        if o == 0.5:
+            return s_sqrt(self)
+        if o == -0.5:
+            return 1.0 / s_sqrt(self)
         raise Abort("pow with unsupported exponent")
 
     def __rpow__(self, o):
